@@ -51,6 +51,11 @@ type scenario struct {
 	c          *lib.Chain
 	erc20Free  common.Address // deployed FIP20, not registered: RegisterERC20 / CallContract target
 	pairDenom  string         // registered native coin (toggle, alias update)
+	pairERC20  common.Address // its ERC-20 contract
+	pairAlias  string         // one of its bridge aliases
+	extERC20   common.Address // a registered native ERC-20 (owner external) and its denom
+	extDenom   string
+	fxERC20    common.Address // the WFX contract of the FX pair
 	recipient  sdk.AccAddress
 	storeSpace string
 	storeKey   []byte // existing key in storeSpace with value storeVal
@@ -61,6 +66,7 @@ type payload struct {
 	Msg        sdk.Msg
 	Variant    string // "", chain name, or a builder-specific tag
 	NoPositive string // non-empty: why the positive control is not expected to succeed
+	Full       bool   // deliver at every level although no positive control is expected (payloads naming a particular existing object)
 }
 
 func must(err error) {
@@ -81,12 +87,25 @@ func setupScenario(c *lib.Chain, r *lib.Rand) *scenario {
 	_, err := c.App.Erc20Keeper.RegisterCoin(ctx, &erc20types.MsgRegisterCoin{Authority: gov, Metadata: md})
 	must(err)
 	s.pairDenom = md.Base
+	s.pairAlias = "eth0x00000000000000000000000000000000000000a1"
+	if p, ok := c.App.Erc20Keeper.GetTokenPair(ctx, md.Base); ok {
+		s.pairERC20 = p.GetERC20Contract()
+	}
+	if p, ok := c.App.Erc20Keeper.GetTokenPair(ctx, fxtypes.DefaultDenom); ok {
+		s.fxERC20 = p.GetERC20Contract()
+	}
 	// a free ERC20 contract
 	deployer := lib.EthKey(c.Seed, "c16-deployer", 0)
 	c.EnsureAccount(ctx, deployer.Acc())
 	addr, err := c.App.Erc20Keeper.DeployUpgradableToken(ctx, deployer.Hex(), "Free Token", "FREE", 18)
 	must(err)
 	s.erc20Free = addr
+	// a registered native ERC-20 (externally owned contract)
+	ext, err := c.App.Erc20Keeper.DeployUpgradableToken(ctx, deployer.Hex(), "Ext Token", "EXTK", 18)
+	must(err)
+	_, err = c.App.Erc20Keeper.RegisterERC20(ctx, &erc20types.MsgRegisterERC20{Authority: gov, Erc20Address: ext.Hex(), Aliases: []string{"bsc0x00000000000000000000000000000000000000b2"}})
+	must(err)
+	s.extERC20, s.extDenom = ext, "extk"
 	// community pool funds
 	funder := lib.EthKey(c.Seed, "c16-funder", 0)
 	c.Mint(funder.Acc(), lib.FX(5000))
@@ -161,13 +180,39 @@ func (s *scenario) build(row authMsg, r *lib.Rand, chains []string) []payload {
 		sym := fmt.Sprintf("TK%d", r.Intn(100000))
 		md := fxtypes.GetCrossChainMetadataManyToOne("Token "+sym, sym, uint32(6+r.Intn(13)),
 			fmt.Sprintf("bsc0x%040x", r.Int63()), fmt.Sprintf("eth0x%040x", r.Int63()))
-		return one(&erc20types.MsgRegisterCoin{Metadata: md})
+		mdTaken := fxtypes.GetCrossChainMetadataManyToOne("Token "+sym+"x", sym+"X", 18, s.pairAlias)
+		mdSame := fxtypes.GetCrossChainMetadataManyToOne("Verif Token", "VRF", 18, "eth0x00000000000000000000000000000000000000a1")
+		return []payload{{Msg: &erc20types.MsgRegisterCoin{Metadata: md}},
+			{Msg: &erc20types.MsgRegisterCoin{Metadata: mdTaken}, Variant: "taken-alias", NoPositive: "names a taken alias", Full: true},
+			{Msg: &erc20types.MsgRegisterCoin{Metadata: mdSame}, Variant: "already-registered-coin", NoPositive: "names a registered coin", Full: true}}
+	// the erc20 messages name an existing object: one payload per KIND of object (live module-owned pair by denom and
+	// by address, externally owned pair, the FX pair, an alias, a contract that is already registered …) — an effect
+	// in front of the guard can hide behind the state of the object the message names
 	case "/fx.erc20.v1.MsgRegisterERC20":
-		return one(&erc20types.MsgRegisterERC20{Erc20Address: s.erc20Free.Hex(), Aliases: []string{fmt.Sprintf("polygon0x%040x", r.Int63())}})
+		obj := func(v string, a common.Address, al ...string) payload {
+			return payload{Msg: &erc20types.MsgRegisterERC20{Erc20Address: a.Hex(), Aliases: al}, Variant: v, NoPositive: "names " + v, Full: true}
+		}
+		return []payload{{Msg: &erc20types.MsgRegisterERC20{Erc20Address: s.erc20Free.Hex(), Aliases: []string{fmt.Sprintf("polygon0x%040x", r.Int63())}}},
+			obj("registered-module-pair-contract", s.pairERC20), obj("registered-external-contract", s.extERC20),
+			obj("wfx-contract", s.fxERC20), obj("free-contract+taken-alias", s.erc20Free, s.pairAlias)}
 	case "/fx.erc20.v1.MsgToggleTokenConversion":
-		return one(&erc20types.MsgToggleTokenConversion{Token: s.pairDenom})
+		obj := func(v, tok string) payload {
+			return payload{Msg: &erc20types.MsgToggleTokenConversion{Token: tok}, Variant: v, NoPositive: "names " + v, Full: true}
+		}
+		return []payload{{Msg: &erc20types.MsgToggleTokenConversion{Token: s.pairDenom}, Variant: "module-pair-by-denom"},
+			{Msg: &erc20types.MsgToggleTokenConversion{Token: s.pairERC20.Hex()}, Variant: "module-pair-by-address"},
+			{Msg: &erc20types.MsgToggleTokenConversion{Token: s.extDenom}, Variant: "external-pair-by-denom"},
+			{Msg: &erc20types.MsgToggleTokenConversion{Token: s.extERC20.Hex()}, Variant: "external-pair-by-address"},
+			obj("fx-pair-by-denom", fxtypes.DefaultDenom), obj("fx-pair-by-address", s.fxERC20.Hex()),
+			obj("alias-denom", s.pairAlias), obj("unregistered-contract", s.erc20Free.Hex()), obj("unknown-denom", "nosuchdenom")}
 	case "/fx.erc20.v1.MsgUpdateDenomAlias":
-		return one(&erc20types.MsgUpdateDenomAlias{Denom: s.pairDenom, Alias: fmt.Sprintf("avalanche0x%040x", r.Int63())})
+		obj := func(v, d, a string) payload {
+			return payload{Msg: &erc20types.MsgUpdateDenomAlias{Denom: d, Alias: a}, Variant: v, NoPositive: "names " + v, Full: true}
+		}
+		return []payload{{Msg: &erc20types.MsgUpdateDenomAlias{Denom: s.pairDenom, Alias: fmt.Sprintf("avalanche0x%040x", r.Int63())}, Variant: "add-alias"},
+			{Msg: &erc20types.MsgUpdateDenomAlias{Denom: s.pairDenom, Alias: s.pairAlias}, Variant: "remove-existing-alias", NoPositive: "may be the last alias", Full: true},
+			obj("external-pair", s.extDenom, fmt.Sprintf("avalanche0x%040x", r.Int63())), obj("fx-pair", fxtypes.DefaultDenom, fmt.Sprintf("avalanche0x%040x", r.Int63())),
+			obj("unknown-denom", "nosuchdenom", s.pairAlias)}
 	case "/fx.evm.v1.MsgCallContract":
 		// the contract's owner is the erc20 module, the caller is the evm module: use a call that any caller may make
 		data, err := contract.GetFIP20().ABI.Pack("approve", common.BigToAddress(sdkmath.NewInt(1+r.Int63()).BigInt()), sdkmath.NewInt(1+r.Int63()).BigInt())
